@@ -311,6 +311,30 @@ func runC11(seed int64, n int, out, backendSpec string) *RunReport {
 				env.db.DeleteById("c", idPool[3])
 			}
 		}
+		// names that are prefixes of one another up to a character sorting before '.', for the sorted views of Fields
+		{
+			id := fmt.Sprintf("%08x-6666-4000-8000-%012x", 1, 1)
+			m := map[string]interface{}{"_id": id, "addr": map[string]interface{}{"city": "x", "zip": int64(1)}, "addr-notes": "n", "addr+": int64(1), "addr0": map[string]interface{}{"k": nil}}
+			if r := rec(&Op{Kind: "Insert", Coll: "c", Docs: []map[string]interface{}{m}}); errKind(r) == "e0" {
+				inserted[id] = m
+				order = append(order, id)
+			}
+		}
+		// sorting on a field whose values are arrays holding times and objects with times compares them pairwise
+		func() {
+			defer func() {
+				if r := recover(); r != nil {
+					f.failf("FindAll sorted on an array-valued field panicked on %s: %v", be, r)
+				}
+			}()
+			for _, fld := range []string{"arr", "obj", "l", "o"} {
+				docs, err := env.db.FindAll(query.NewQuery("c").Sort(query.SortOption{Field: fld, Direction: -1}))
+				evals++
+				if err != nil || len(docs) != len(order) {
+					f.failf("FindAll sorted on %q returns %d of %d documents on %s (err %v)", fld, len(docs), len(order), be, err)
+				}
+			}
+		}()
 		check("before reopen")
 		// rewrite some documents with values that COMPARE equal to the stored ones but have another Go type or zone
 		// (5 -> 5.0 -> uint64(5), the same instant in another zone): what is read back is what was written last
